@@ -109,6 +109,7 @@ func (fc *FnCtx) execInstr(in ssa.Instruction, st *State) {
 		st.PC = TFalse
 	case *ssa.Go:
 		fc.notes.Assumed["goroutine body of "+x.Call.String()+" is not executed at the spawn point"] = true
+		fc.spawn(st, x)
 	case *ssa.Send, *ssa.Select, *ssa.MakeChan:
 		fc.unsup("channel operation %s", in)
 	default:
@@ -674,7 +675,13 @@ func (fc *FnCtx) typeAssert(st *State, x *ssa.TypeAssert) Val {
 	if x.CommaOk {
 		return Val{Tup: []Val{tv(Ite(has, un, fc.TE.Zero(x.AssertedType))), tv(fc.S.Define(x.Name()+".ok", has))}}
 	}
-	fc.oblige(st, "no-panic", "type-assert", siteOf(fc, x), has, fmt.Sprintf("%s holds a %s", x.X.Name(), x.AssertedType))
+	if fc.top.C != nil && fc.top.C.Opts["context-values-typed"] != "" {
+		// "opt context-values-typed true": values this function takes out of a context.Context were
+		// put there by piko with the asserted type (an environment assumption, listed in the evidence)
+		fc.notes.Assumed["type assertion at "+siteOf(fc, x)+" in "+fc.top.C.Key+": the value stored in the context has type "+x.AssertedType.String()] = true
+	} else {
+		fc.oblige(st, "no-panic", "type-assert", siteOf(fc, x), has, fmt.Sprintf("%s holds a %s", x.X.Name(), x.AssertedType))
+	}
 	fc.S.Assume(Implies(st.PC, has), "continues only if assertion holds")
 	r := fc.S.Define(x.Name(), un)
 	fc.assumeWF(st, r, x.AssertedType, "asserted value")
